@@ -547,6 +547,17 @@ func (fr *Frame) havocClause(n *vnode, m *Clause, env *SpecEnv) {
 			fr.havocObject(n, a.T, bt)
 			return
 		}
+		if e.Name == "deref" && len(e.Args) == 1 {
+			// the cell a pointer to a non-struct value points to
+			a := env.eval(e.Args[0])
+			pt, isPtr := derefType(a.Ty)
+			if isPtr {
+				srt := x.eng.SortOf(pt)
+				pl := &Place{Comp: cellComp(srt, isRefType(pt)), Elem: srt, Ref: a.T, Ty: pt}
+				x.writePlace(n.heap, pl, x.freshVal("hv$cell", pt).T)
+				return
+			}
+		}
 	}
 	stale("unsupported modifies item %q", m.Text)
 }
@@ -679,6 +690,10 @@ func (x *Exec) modClauseTargets(m *Clause, callee *ssa.Function, c *ssa.CallComm
 					}
 				}
 			}
+		}
+		if e.Name == "deref" {
+			f("*", nil, true)
+			return
 		}
 		if e.Name == "cursor" || e.Name == "fpos" {
 			f("G$"+e.Name, nil, true)
